@@ -347,6 +347,14 @@ RESTART:
 	if string(checkResp.PrevValidatorSet.PubKeyHash) != ph.Header.PrevCommitProof.PubKeyHash {
 		return tmconsensus.HandleProposedHeaderBadPrevCommitProofPubKeyHash
 	}
+	if ph.Header.Height > m.initialHeight && len(checkResp.PrevValidatorSet.PubKeys) == 0 {
+		// The kernel does not supply the previous validator set
+		// for a header of the committing height yet,
+		// so its previous commit proof cannot be checked.
+		// A proof naming any validator hash was refused just above for that reason;
+		// a proof with an empty hash must not reach proof validation without any keys.
+		return tmconsensus.HandleProposedHeaderBadPrevCommitProofPubKeyHash
+	}
 
 	// The PrevCommitProof should be in a finalized form,
 	// so we need to use the CommonMessageSignatureProofScheme to validate it.
